@@ -9,6 +9,10 @@ type callbackMgr[T any] struct {
 	p *Params[T]
 
 	ch <-chan userCallbackEvent
+
+	// monDone is closed when the monitor exits; once it is closed and ch
+	// has been drained, runCBs returns.
+	monDone <-chan struct{}
 }
 
 type userCallbackEvent interface {
@@ -67,7 +71,19 @@ func (cbm *callbackMgr[T]) runCBs(ctx context.Context) {
 	newCfgCBs := make([]*userCallbackHandle[T], 0)
 	lastSerial := uint64(0)
 	lastVersion := (*T)(nil)
-	for ev := range cbm.ch {
+	for {
+		var ev userCallbackEvent
+		select {
+		case ev = <-cbm.ch:
+		case <-cbm.monDone:
+			// The monitor has exited, so nothing new will be announced;
+			// handle whatever is already queued, then exit.
+			select {
+			case ev = <-cbm.ch:
+			default:
+				return
+			}
+		}
 		verifSched("cb.event")
 		switch e := ev.(type) {
 		case *watchErrorEvent[T]:
